@@ -2,8 +2,13 @@
 """Regenerates /verif/MANIFEST.json from budgets.json (what is built) and tools/manifest_texts.json."""
 import json, os
 ROOT = os.path.dirname(os.path.dirname(os.path.abspath(__file__)))
+import glob
 budgets = json.load(open(os.path.join(ROOT, "budgets.json")))
+for f in sorted(glob.glob(os.path.join(ROOT, "budgets.d", "*.json"))):
+    budgets.update(json.load(open(f)))
 texts = json.load(open(os.path.join(ROOT, "tools", "manifest_texts.json")))
+for f in sorted(glob.glob(os.path.join(ROOT, "tools", "manifest_texts.d", "*.json"))):
+    texts.update(json.load(open(f)))
 props = [json.loads(l) for l in open(os.path.join(ROOT, "properties.jsonl")) if l.strip()]
 checks, na = [], []
 for p in props:
